@@ -496,8 +496,8 @@ impl<E: Elem> World<E> {
     // ---- conservation walk -----------------------------------------------
 
     /// Observe everything reachable from the pool through the public views and reconcile
-    /// with the ledger. `fault_drop_fired`: a destructor panic was injected in the last op.
-    pub fn walk(&mut self, cx: &mut Cx, fault_drop_fired: bool) {
+    /// with the ledger.
+    pub fn walk(&mut self, cx: &mut Cx) {
         let _g = enter(Ctx::Infra);
         ledger::walk_begin();
         let mut reach: u64 = 0;
@@ -566,7 +566,6 @@ impl<E: Elem> World<E> {
             }
             return;
         }
-        let _ = fault_drop_fired;
         if E::HAS_ID {
             if ledger::live_count() as u64 != reach {
                 // skipped elements a live iterator may still own are not leaks (yet)
